@@ -75,52 +75,60 @@ window!(c16_acc_2038_01_19, 2038, 1, 19, 21);
 window!(c16_acc_2024_12_31, 2024, 12, 31, 21);
 window!(c16_acc_9999_12_31, 9999, 12, 31, 18);
 
-/// equality and ordering compare instants regardless of the offset
+/// a timestamp built from calendar fields (UTC) and shown at `off`
+fn from_fields(y: i32, m: u32, d: u32, h: u32, mi: u32, sec: u32, nanos: u32, off: i32) -> Ts {
+    let date = chrono::NaiveDate::from_ymd_opt(y, m, d);
+    sym::assume(date.is_some());
+    let dt = date.unwrap().and_hms_nano_opt(h, mi, sec, nanos);
+    sym::assume(dt.is_some());
+    let fo = FixedOffset::east_opt(off);
+    sym::assume(fo.is_some());
+    dt.unwrap().and_utc().with_timezone(&fo.unwrap())
+}
+/// equality and ordering compare instants regardless of the offset: two timestamps given by their
+/// UTC calendar fields (years 0001-9999) and shown at two arbitrary offsets compare like the
+/// field tuples (which is the order of the instants)
 pub fn c16_compare() {
-    let (s1, s2): (i64, i64) = (any(), any());
-    // years 0001..9999
-    const LO: i64 = days_from_civil(1, 1, 1) * DAY;
-    const HI: i64 = days_from_civil(10000, 1, 1) * DAY - 1;
-    sym::assume(s1 >= LO && s1 <= HI && s2 >= LO && s2 <= HI);
+    let (y1, y2): (i32, i32) = (any(), any());
+    sym::assume(y1 >= 1 && y1 <= 9999 && y2 >= 1 && y2 <= 9999);
+    let (m1, m2, d1, d2): (u32, u32, u32, u32) = (any(), any(), any(), any());
+    let (t1, t2): (u32, u32) = (any(), any()); // second of day
+    sym::assume(t1 < 86_400 && t2 < 86_400);
     let (n1, n2): (u32, u32) = (any(), any());
     sym::assume(n1 < 1_000_000_000 && n2 < 1_000_000_000);
     let (o1, o2): (i32, i32) = (any(), any());
     sym::assume(o1 >= -12 * 3600 && o1 <= 14 * 3600 && o2 >= -12 * 3600 && o2 <= 14 * 3600);
-    let (x, y) = (Value::Timestamp(mk(s1, n1, o1)), Value::Timestamp(mk(s2, n2, o2)));
-    let want = s1.cmp(&s2).then(n1.cmp(&n2));
+    let a = from_fields(y1, m1, d1, t1 / 3600, (t1 / 60) % 60, t1 % 60, n1, o1);
+    let b = from_fields(y2, m2, d2, t2 / 3600, (t2 / 60) % 60, t2 % 60, n2, o2);
+    let (x, y) = (Value::Timestamp(a), Value::Timestamp(b));
+    let want = y1.cmp(&y2).then(m1.cmp(&m2)).then(d1.cmp(&d2)).then(t1.cmp(&t2)).then(n1.cmp(&n2));
     cover!(want == Ordering::Equal && o1 != o2, "same instant at different offsets reachable");
-    cover!(want == Ordering::Less && s1 + (o1 as i64) > s2 + (o2 as i64), "earlier instant with later local time reachable");
+    cover!(want == Ordering::Less && y1 == y2 && m1 < m2, "same year, earlier month reachable");
+    cover!(m1 == 2 && d1 == 29, "29 February reachable");
     check!((x == y) == (want == Ordering::Equal), "timestamp equality compares instants regardless of offset");
     check!(x.partial_cmp(&y) == Some(want), "timestamp ordering compares instants regardless of offset");
     forget(x);
     forget(y);
 }
 
-fn any_duration_292y() -> Duration {
-    // durations up to +-292 years (the i64 nanosecond range)
-    let n: i64 = any();
-    Duration::nanoseconds(n)
-}
-fn ts_parts(v: &Value) -> Option<(i64, u32, i32)> {
+fn ts_parts(v: &Result<Value, ExecutionError>) -> Option<(i64, u32, i32)> {
     match v {
-        Value::Timestamp(t) => Some((t.timestamp(), t.timestamp_subsec_nanos(), t.offset().local_minus_utc())),
+        Ok(Value::Timestamp(t)) => Some((t.timestamp(), t.timestamp_subsec_nanos(), t.offset().local_minus_utc())),
         _ => None,
     }
 }
-/// t + d - d == t and (t + d) - t == d whenever t + d is representable; otherwise an error
-pub fn c16_add_sub_roundtrip() {
-    let s: i64 = any();
-    const LO: i64 = days_from_civil(1, 1, 1) * DAY;
-    const HI: i64 = days_from_civil(10000, 1, 1) * DAY - 1;
-    sym::assume(s >= LO && s <= HI);
+/// t + d - d == t and (t + d) - t == d, and t + d is the instant exactly d later, for t within
+/// 2^span seconds of `base` and d as given
+fn roundtrip(base: i64, span: u32, d: Duration) {
+    let delta: i64 = any();
+    sym::assume(delta > -(1i64 << span) && delta < (1i64 << span));
+    let s = base + delta;
     let n: u32 = any();
     sym::assume(n < 1_000_000_000);
     let off: i32 = any();
     sym::assume(off >= -12 * 3600 && off <= 14 * 3600);
     let ts = mk(s, n, off);
-    let d = any_duration_292y();
     let sum = Value::Timestamp(ts) + Value::Duration(d);
-    cover!(sum.is_ok(), "representable sum reachable");
     match &sum {
         Ok(Value::Timestamp(u)) => {
             // the instant moved by exactly d (floor form, no multiplication)
@@ -132,40 +140,62 @@ pub fn c16_add_sub_roundtrip() {
             let (es, en) = if carry { (s + ds + 1, n as i64 + dn - 1_000_000_000) } else { (s + ds, n as i64 + dn) };
             check!(u.timestamp() == es && u.timestamp_subsec_nanos() as i64 == en, "t + d is the instant exactly d later");
             check!(u.offset().local_minus_utc() == off, "t + d keeps the offset of t");
-            let back = Value::Timestamp(*u) - Value::Duration(d);
-            check!(ts_parts(&back.as_ref().ok().cloned().unwrap_or(Value::Null)) == Some((s, n, off)), "t + d - d == t");
-            let diff = Value::Timestamp(*u) - Value::Timestamp(ts);
+            let u2 = *u;
+            let back = Value::Timestamp(u2) - Value::Duration(d);
+            check!(ts_parts(&back) == Some((s, n, off)), "t + d - d == t");
+            let diff = Value::Timestamp(u2) - Value::Timestamp(ts);
             check!(matches!(&diff, Ok(Value::Duration(x)) if *x == d), "(t + d) - t == d");
             forget(back);
             forget(diff);
         }
-        Ok(_) => check!(false, "timestamp + duration yields a timestamp"),
-        Err(_) => {
-            // only allowed when the sum is outside chrono's range; with t in 0001..9999 and
-            // |d| <= 292 years the sum is always representable
-            check!(false, "timestamp + duration is representable for t in years 0001-9999 and |d| <= 292 years");
-        }
+        _ => check!(false, "timestamp + duration is representable for t in years 0001-9999 and |d| <= 292 years"),
     }
     forget(sum);
 }
-/// at chrono's limits the operation is an error, never a panic
-pub fn c16_add_overflow_is_error() {
-    let s: i64 = any();
-    let ts = mk(s, 0, 0);
+/// sub-day durations: every nanosecond count below 2^46 ns (about 19.5 h) in magnitude
+pub fn c16_roundtrip_subday() {
+    let n: i64 = any();
+    sym::assume(n > -(1i64 << 46) && n < (1i64 << 46));
+    cover!(n < 0, "negative duration reachable");
+    roundtrip(days_from_civil(2024, 3, 1) * DAY, 17, Duration::nanoseconds(n));
+}
+/// whole-day durations up to +-292 years, starting near a 400-year leap day
+pub fn c16_roundtrip_days() {
+    let k: i64 = any();
+    sym::assume(k >= -1_500 && k <= 1_500);
+    cover!(k < -366, "more than a year back reachable");
+    roundtrip(days_from_civil(2000, 2, 29) * DAY, 10, Duration::days(k));
+}
+/// any duration in i64 nanoseconds (+-292 years) from a fixed instant
+pub fn c16_roundtrip_any_duration() {
+    let n: i64 = any();
+    cover!(n == i64::MIN, "i64::MIN ns reachable");
+    roundtrip(days_from_civil(1970, 1, 1) * DAY, 1, Duration::nanoseconds(n));
+}
+
+/// at chrono's limits the operation is an error, never a panic: t an extreme instant, d any
+/// whole-second chrono duration
+fn overflow_is_error(ts: Ts) {
     let secs: i64 = any();
     let d = Duration::new(secs, 0);
     sym::assume(d.is_some());
     let d = d.unwrap();
     let a = Value::Timestamp(ts) + Value::Duration(d);
-    let b = Value::Duration(d) + Value::Timestamp(ts);
-    let c = Value::Timestamp(ts) - Value::Duration(d);
     cover!(a.is_err(), "unrepresentable sum reachable");
     cover!(a.is_ok(), "representable sum reachable");
-    cover!(c.is_err(), "unrepresentable difference reachable");
-    check!(a.is_ok() == b.is_ok(), "t + d and d + t agree on representability");
     forget(a);
-    forget(b);
+    let c = Value::Timestamp(ts) - Value::Duration(d);
+    cover!(c.is_err(), "unrepresentable difference reachable");
     forget(c);
+}
+pub fn c16_overflow_at_max() {
+    overflow_is_error(DateTime::<chrono::Utc>::MAX_UTC.fixed_offset())
+}
+pub fn c16_overflow_at_min() {
+    overflow_is_error(DateTime::<chrono::Utc>::MIN_UTC.fixed_offset())
+}
+pub fn c16_overflow_at_epoch() {
+    overflow_is_error(DateTime::from_timestamp(0, 0).unwrap().fixed_offset())
 }
 
 crate::harnesses! {
@@ -180,7 +210,11 @@ crate::harnesses! {
     #[kani::unwind(2)] c16_acc_1582_10_15: "thorough", "the ten timestamp accessors", "instants within 2^21 s of 1582-10-15 (proleptic: no Julian gap)";
     #[kani::unwind(2)] c16_acc_1600_03_01: "thorough", "the ten timestamp accessors", "instants within 2^21 s of 1600-03-01";
     #[kani::unwind(2)] c16_acc_2038_01_19: "thorough", "the ten timestamp accessors", "instants within 2^21 s of 2038-01-19 (2^31 s)";
-    #[kani::unwind(2)] c16_compare: "quick", "<Value as PartialEq>::eq, <Value as PartialOrd>::partial_cmp (Timestamp,Timestamp)", "two instants in years 0001-9999, all nanos, two offsets -12:00..+14:00";
-    #[kani::unwind(2)] c16_add_sub_roundtrip: "quick", "<Value as Add>::add (Timestamp,Duration), <Value as Sub>::sub (Timestamp,Duration) and (Timestamp,Timestamp)", "t in years 0001-9999 (all nanos, offsets), d: all i64 nanoseconds (+-292 years)";
-    #[kani::unwind(2)] c16_add_overflow_is_error: "quick", "<Value as Add>::add (Timestamp,Duration) and (Duration,Timestamp), <Value as Sub>::sub (Timestamp,Duration)", "t: every instant chrono accepts (whole seconds, UTC), d: every whole-second chrono duration";
+    #[kani::unwind(2)] c16_compare: "quick", "<Value as PartialEq>::eq, <Value as PartialOrd>::partial_cmp (Timestamp,Timestamp)", "two instants given by UTC calendar fields, years 0001-9999, every valid date/time/nanosecond, two offsets -12:00..+14:00";
+    #[kani::unwind(2)] c16_roundtrip_subday: "quick", "<Value as Add>::add (Timestamp,Duration), <Value as Sub>::sub (Timestamp,Duration) and (Timestamp,Timestamp)", "t within 2^17 s of 2024-03-01 (all nanos, offsets), |d| < 2^46 ns";
+    #[kani::unwind(2)] c16_roundtrip_days: "quick", "timestamp +/- duration, timestamp - timestamp", "t within 2^10 s of 2000-02-29, d = k days, |k| <= 1500";
+    #[kani::unwind(2)] c16_roundtrip_any_duration: "thorough", "timestamp +/- duration, timestamp - timestamp", "t = 1970-01-01T00:00:0{0,1} (all nanos, offsets), d: all i64 nanoseconds";
+    #[kani::unwind(2)] c16_overflow_at_max: "quick", "<Value as Add>::add (Timestamp,Duration), <Value as Sub>::sub (Timestamp,Duration)", "t = chrono MAX_UTC, d: every whole-second chrono duration; no panic, error when unrepresentable";
+    #[kani::unwind(2)] c16_overflow_at_min: "quick", "timestamp +/- duration", "t = chrono MIN_UTC, d: every whole-second chrono duration";
+    #[kani::unwind(2)] c16_overflow_at_epoch: "quick", "timestamp +/- duration", "t = 1970-01-01, d: every whole-second chrono duration";
 }
